@@ -250,7 +250,7 @@ def _settings(n, shrink=False):
         derandomize=False,
         report_multiple_bugs=False,
         print_blob=False,
-        suppress_health_check=[HealthCheck.too_slow, HealthCheck.data_too_large],
+        suppress_health_check=[HealthCheck.too_slow, HealthCheck.data_too_large, HealthCheck.large_base_example],
         phases=[Phase.generate, Phase.shrink] if shrink else [Phase.generate],
     )
 
